@@ -44,6 +44,10 @@ struct %(FUN)s { _Bool set; };
 #define %(VS)s__push_back__1(v, e) vf_vs_push((v), (e), 0)
 #define %(VS)s__push_back_rv__1(v, e) vf_vs_push((v), (e), 1)
 #define %(VS)s__erase__2 vf_vs_erase
+/* std::move_iterator over the vector iterator and the range constructor vector(move_it, move_it) */
+struct std_move_iterator_%(VSIT)s { struct %(VSIT)s it; };
+#define ext_make_move_iterator__%(VSIT)s(r, a) ((r)->it = *(a))
+#define %(VS)s__ctor__std_move_iterator_%(VSIT)s_std_move_iterator_%(VSIT)s_allocator_type_ref(d, a, b, al) vf_vs_from_moved((d), &(a)->it, &(b)->it)
 #define %(VSIT)s__op_deref__0 vf_vsit_deref
 #define %(VSIT)s__op_arrow__0 vf_vsit_deref
 #define %(VSIT)s__op_inc__0(it) ((it)->idx = (it)->idx + 1, (it))
@@ -231,6 +235,22 @@ void vf_vs_erase(struct %(VSIT)s *ret, struct %(VS)s *v, struct %(VSIT)s *a, str
   if (v == vf_dd_list && b->idx == v->size && g_tail >= n) g_tail = g_tail - n;
   v->size = v->size - n;
   ret->v = v; ret->idx = a->idx;
+}
+/* vector(make_move_iterator(a), make_move_iterator(b)): the elements of [a, b) are moved into a new
+   vector (no reference count changes; the source entries become null); allocation may throw before
+   anything is moved */
+void vf_vs_from_moved(struct %(VS)s *d, struct %(VSIT)s *a, struct %(VSIT)s *b)
+{
+  struct %(VS)s *v = a->v;
+  vf_vs_check(v);
+  __CPROVER_assert(b->v == v && a->idx <= b->idx && b->idx <= v->size, "[C16] a vector is built from an invalid iterator range");
+  d->size = 0; d->has_f = 0; d->fpos = 0; d->felem.p = 0; d->other.p = 0;
+  if (vf_nondet_bool()) { vf_exc = 1; return; }
+  d->size = b->idx - a->idx;
+  if (v->has_f && v->fpos >= a->idx && v->fpos < b->idx) {
+    d->has_f = 1; d->fpos = v->fpos - a->idx; d->felem.p = &vf_fobj;
+    v->has_f = 0; v->felem.p = 0;
+  }
 }
 /* ---- vector<void*> ---- */
 void vf_vv_push(struct %(VV)s *v, struct vf_sobj **p)
